@@ -182,8 +182,9 @@ Example C02_ex_normal :
         [CNum (s2l "-5e-3"); CNum (s2l ".5"); CNum (s2l "1e10")];
         [CNum (s2l "+5E+3"); CNum (s2l "7"); CNum (s2l "3")] ].
 Proof. vm_compute. reflexivity. Qed.
-(* three non-blank lines contain a '-' and there are three data lines: the hyphen rule is dropped *)
-Example C02_ex_sniff : inspect_twice DSpace ex_body default_subs = (Some 3%nat, drop_hyphen_subs default_subs).
+(* only two of the three data lines contain a '-' (the '-' of the comment line is not counted):
+   the hyphen rule is kept *)
+Example C02_ex_sniff : inspect_twice DSpace ex_body default_subs = (Some 3%nat, default_subs).
 Proof. vm_compute. reflexivity. Qed.
 (* the domain is not trivial: a run-on "1-2", a decimal comma, a quoted token and a short
    row are all outside it *)
